@@ -330,3 +330,151 @@ Proof.
   - unfold pd_inv; cbn [pd_pc pd_in pd_len pd_cap pd_acct pd_rok]. unfold SZ_INSTR. repeat split; lia.
   - cbn [pd_pc pd_in]. lia.
 Qed.
+
+(* ---- DeBlobProgramCode (repaired shape) ---- *)
+Definition gp_post (data : gslice) (g : gprog) : Prop :=
+  gwf (gp_jt g) /\ g_len (gp_jt g) = gp_jl g * gp_js g /\ gp_jl g * gp_js g < 4294967296 /\
+  gp_js g < 4294967296 /\ gp_jl g < 256 /\
+  gp_rok g = true /\ length (gp_mask g) = N.to_nat (g_len (gp_ins g)) /\
+  g_len (gp_ins g) <= g_len data /\ gp_alloc g <= 496 * g_len (gp_ins g) + 49232.
+
+Definition deblob_post (data : gslice) (r : res gprog) : Prop :=
+  match r with Ok g => gp_post data g | Rej => True | _ => False end.
+
+Lemma deblob_ok : forall data, gwf data -> bytes_ok (g_arr data) -> gcap data + 64 < 4294967296 ->
+  deblob_post data (deblob_go true true data).
+Proof.
+  intros data W Hb Hc. unfold deblob_go.
+  pose proof (ruv_good data W) as R1.
+  destruct (read_uint_variable data) as [[js used]| | |]; cbn [bind ruv_post] in *; try exact I; try contradiction.
+  rewrite slc_from_ok by (try exact W; lia).
+  set (data1 := sub_slice data used (g_len data)).
+  assert (W1 : gwf data1) by (apply sub_wf; [lia|exact W]).
+  assert (L1 : g_len data1 = g_len data - used) by reflexivity.
+  assert (T1 : within data1 data) by apply sub_within.
+  destruct (g_len data1 <? 1) eqn:E1; [exact I|].
+  rewrite idx_ok by lia.
+  assert (Hjl : nth (N.to_nat 0) (g_arr data1) 0 < 256)
+    by (apply nth_bytes_ok; apply (within_bytes_ok _ _ T1 Hb)).
+  set (jl := nth (N.to_nat 0) (g_arr data1) 0) in *. clearbody jl.
+  rewrite slc_from_ok by (try exact W1; lia).
+  set (data2 := sub_slice data1 1 (g_len data1)).
+  assert (W2 : gwf data2) by (apply sub_wf; [lia|exact W1]).
+  assert (L2 : g_len data2 = g_len data1 - 1) by reflexivity.
+  assert (T2 : within data2 data) by (eapply within_trans; [apply sub_within|exact T1]).
+  pose proof (ruv_good data2 W2) as R2.
+  destruct (read_uint_variable data2) as [[isz used2]| | |]; cbn [bind ruv_post] in *; try exact I; try contradiction.
+  rewrite slc_from_ok by (try exact W2; lia).
+  set (data3 := sub_slice data2 used2 (g_len data2)).
+  assert (W3 : gwf data3) by (apply sub_wf; [lia|exact W2]).
+  assert (L3 : g_len data3 = g_len data2 - used2) by reflexivity.
+  assert (T3 : within data3 data) by (eapply within_trans; [apply sub_within|exact T2]).
+  cbn [andb].
+  destruct (4294967296 <=? js) eqn:E2; cbn [orb]; [exact I|].
+  assert (Htl : u64 (jl * js) = jl * js) by (apply u64_small; nia).
+  rewrite Htl.
+  destruct (4294967296 <=? jl * js) eqn:E3; [exact I|].
+  apply rb_ok; [exact W3|exact I|].
+  intros jt data4 Wjt W4 Tjt T4 Ljt L4 Hle _.
+  destruct (g_len data4 <? isz) eqn:E4; [exact I|].
+  assert (C4 : g_len data4 <= gcap data4) by exact W4.
+  rewrite slc_ok by lia. rewrite slc_from_ok by (try exact W4; lia).
+  set (ins := sub_slice data4 0 isz). set (bm := sub_slice data4 isz (g_len data4)).
+  assert (Wi : gwf ins) by (apply sub_wf; lia).
+  assert (Li : g_len ins = isz) by (cbn; lia).
+  pose proof (make_bitmasks_ok ins bm) as MB.
+  destruct (make_bitmasks ins bm) as [mask| | |]; cbn [bind]; try exact I; try contradiction.
+  assert (Hi64 : g_len ins + 64 < 4294967296).
+  { pose proof (within_cap _ _ T3). unfold gwf in *. lia. }
+  destruct (predecode_ok ins mask Wi Hi64) as (s & P1 & P2 & P3 & P4 & P5).
+  rewrite P1. cbn [bind deblob_post]. unfold gp_post.
+  cbn [gp_jt gp_jl gp_js gp_rok gp_mask gp_ins gp_alloc].
+  rewrite !u32_small by lia.
+  repeat split; try assumption; try lia.
+Qed.
+
+(* ---- djump (repaired shape) on a program accepted by the repaired deblob ---- *)
+Lemma djump_ok : forall data g a, gp_post data g -> exists j, djump_go true g a = Ok j.
+Proof.
+  intros data g a (Wj & Lj & Hp & Hs & Hl & _). unfold djump_go.
+  destruct (a =? 4294901760); [eexists; reflexivity|].
+  destruct ((a =? 0) || (u32 (gp_js g * 2) <? a) || negb (a mod 2 =? 0)) eqn:E; [eexists; reflexivity|].
+  cbv zeta.
+  assert (Hidx : a / 2 - 1 + 1 <= gp_js g) by (unfold u32 in E; lia).
+  set (index := a / 2 - 1) in *. clearbody index.
+  assert (Hoff : index * gp_jl g + gp_jl g <= gp_jl g * gp_js g) by nia.
+  rewrite u32_small by lia.
+  unfold gwf in Wj.
+  rewrite slc_from_ok by (try exact Wj; lia).
+  rewrite slc_ok by (try rewrite sub_cap; lia).
+  match goal with |- context [if ?c then _ else _] => destruct c end; [|eexists; reflexivity].
+  match goal with |- context [if ?c then _ else _] => destruct c end; eexists; reflexivity.
+Qed.
+
+(* ---- DecodeSerializedValues ---- *)
+Definition sb_post (p : gslice) (b : sblob) : Prop :=
+  gwf (sb_c b) /\ within (sb_c b) p /\ g_len (sb_c b) <= g_len p /\
+  g_len (sb_o b) < 16777216 /\ g_len (sb_w b) < 16777216 /\ sb_z b < 65536 /\ sb_s b < 16777216.
+
+Definition dsv_post (p : gslice) (r : res sblob) : Prop :=
+  match r with Ok b => sb_post p b | Rej => True | _ => False end.
+
+Lemma dsv_ok : forall p, gwf p -> bytes_ok (g_arr p) -> dsv_post p (decode_serialized_values p).
+Proof.
+  intros p W Hb. unfold decode_serialized_values.
+  apply ruf_ok; [exact W|exact Hb|lia|exact I|]. intros olen p1 Ho W1 T1 L1 _.
+  pose proof (within_bytes_ok _ _ T1 Hb) as B1.
+  apply ruf_ok; [exact W1|exact B1|lia|exact I|]. intros wlen p2 Hw W2 T2 L2 _.
+  pose proof (within_bytes_ok _ _ T2 B1) as B2.
+  apply ruf_ok; [exact W2|exact B2|lia|exact I|]. intros z p3 Hz W3 T3 L3 _.
+  pose proof (within_bytes_ok _ _ T3 B2) as B3.
+  apply ruf_ok; [exact W3|exact B3|lia|exact I|]. intros s p4 Hs W4 T4 L4 _.
+  pose proof (within_bytes_ok _ _ T4 B3) as B4.
+  apply rb_ok; [exact W4|exact I|]. intros o p5 Wo W5 To T5 Lo L5 _ _.
+  pose proof (within_bytes_ok _ _ T5 B4) as B5.
+  apply rb_ok; [exact W5|exact I|]. intros w p6 Ww W6 Tw T6 Lw L6 _ _.
+  pose proof (within_bytes_ok _ _ T6 B5) as B6.
+  apply ruf_ok; [exact W6|exact B6|lia|exact I|]. intros clen p7 Hc W7 T7 L7 _.
+  apply rb_ok; [exact W7|exact I|]. intros c p8 Wc W8 Tc T8 Lc L8 Hle _.
+  destruct (g_len p8 =? 0); cbn [negb dsv_post]; [|exact I].
+  unfold sb_post; cbn [sb_c sb_o sb_w sb_z sb_s].
+  change (2 ^ (8 * 3)) with 16777216 in *. change (2 ^ (8 * 2)) with 65536 in *.
+  repeat split; try lia; try assumption.
+  eapply within_trans; [exact Tc|]. eapply within_trans; [exact T7|]. eapply within_trans; [exact T6|].
+  eapply within_trans; [exact T5|]. eapply within_trans; [exact T4|]. eapply within_trans; [exact T3|].
+  eapply within_trans; [exact T2|]. exact T1.
+Qed.
+
+(* ---- allocateMemorySegment / allocateStack ---- *)
+Lemma m_add_made : forall m p, m_made (m_add m p) = m_made m + 1.
+Proof. reflexivity. Qed.
+
+Lemma seg_loop_ok : forall nilc e fuel addr m,
+  e + zP <= 4294967296 -> (e - addr + zP - 1) / zP < N.of_nat fuel ->
+  exists m', seg_loop fuel addr e nilc m = Ok m' /\ m_made m' <= m_made m + (e - addr + zP - 1) / zP.
+Proof.
+  intros nilc e. induction fuel as [|f IH]; intros addr m He Hf; [lia|].
+  cbn [seg_loop]. destruct (addr <? e) eqn:E.
+  - rewrite u32_small by (unfold zP in *; lia).
+    set (m1 := if nilc && m_has m (addr / zP) then m else m_add m (addr / zP)).
+    assert (M1 : m_made m1 <= m_made m + 1).
+    { unfold m1. destruct (nilc && m_has m (addr / zP)); [lia|rewrite m_add_made; lia]. }
+    clearbody m1.
+    destruct (IH (addr + zP) m1 He) as (m' & R1 & R2); [unfold zP in *; lia|].
+    exists m'. split; [exact R1|]. unfold zP in *. lia.
+  - eexists; split; [reflexivity|lia].
+Qed.
+
+Lemma seg_ok : forall start e nilc m, e + zP <= 4294967296 ->
+  exists m', seg start e nilc m = Ok m' /\ m_made m' <= m_made m + (e - start + zP - 1) / zP.
+Proof.
+  intros start e nilc m He. unfold seg. apply seg_loop_ok; [exact He|]. unfold zP in *. lia.
+Qed.
+
+Definition Zn (x : N) : N := zZ * ((x + zZ - 1) / zZ).
+
+Lemma P32_eq : forall x, x < 2147483648 -> P32 x = Pn x.
+Proof. intros x H. unfold P32, Pn, u32, zP. lia. Qed.
+
+Lemma Z32_eq : forall x, x < 2147483648 -> Z32 x = Zn x.
+Proof. intros x H. unfold Z32, Zn, u32, zZ. lia. Qed.
